@@ -129,7 +129,7 @@ FORMAT_TOKENS = [
 
 _ALPHABET = (
     ["a", "b", "Z", "0", "1", "7", " ", "\t", '"', '""', "\n", "=", ".", "-", "[", "]", ":", "<", ">", "!", ",", "(", ")", "_", "\\", "/", "'", "\n!c", "%", "%s", "%%", "%d"]
-    + ["é", "ß", "日", "本", "́", "\U0001F600", "Ж"]
+    + ["é", "ß", "日", "本", "́", "\U0001F600", "Ж", "a\ufeffb"]
     + ["\x0b", "\x0c", "\x1c", "\x85", " ", " "]
 )
 
